@@ -1576,6 +1576,12 @@ func runC17(c *Ctx) {
 					okM = true
 				}
 			}
+			// delegation to the sibling entry point (which is checked itself)
+			for _, other := range []string{"parser.ParseSchemas", "parser.ParseSchemasWithLimit"} {
+				if o := p.Func(other); o != nil && o != fn && delegates(fn, o) {
+					okM = true
+				}
+			}
 			if okM {
 				r3.OK(name+" merges every parsed source", "")
 			} else {
